@@ -178,7 +178,7 @@ def get_arg_defaults(task: "Task", args: tuple, kwargs: dict) -> dict:
 
     sig = task.signature
     for i, param in enumerate(sig.parameters.values()):
-        if i < len(args):
+        if i < len(args) and param.kind in (param.POSITIONAL_ONLY, param.POSITIONAL_OR_KEYWORD):
             # User already specified this arg in args.
             continue
 
